@@ -95,7 +95,11 @@ type inst struct {
 	digests map[uint64]string // digest -> value, learned on insertion
 	ofVal   map[string]uint64
 	nfresh  int
+	avail   bool // the filter's private state can be read (package peek)
 }
+
+// stateUnavailable counts operations judged by the black-box oracle only.
+var stateUnavailable int64
 
 type opT struct {
 	val string // "" = a new distinct value
@@ -132,16 +136,18 @@ func newInst(ttl time.Duration, seed int64, prefill int) *inst {
 		}
 		in.m.set(ents)
 		in.m.last, in.m.hasLast = in.now, true
-		dump, _ := replayfilter.VerifDump(f)
-		if len(dump) != prefill {
-			panic("prefill: unexpected size")
-		}
-		for i, e := range dump {
-			v := ents[i].val
-			in.digests[e.Digest] = v
-			in.ofVal[v] = e.Digest
+		if dump, _, ok := replayfilter.VerifDump(f); ok {
+			if len(dump) != prefill {
+				panic("prefill: unexpected size")
+			}
+			for i, e := range dump {
+				v := ents[i].val
+				in.digests[e.Digest] = v
+				in.ofVal[v] = e.Digest
+			}
 		}
 	}
+	in.avail = replayfilter.VerifAvailable(f)
 	return in
 }
 
@@ -157,14 +163,30 @@ func (in *inst) apply(o opT, light bool) *mc.Failure {
 		val = fmt.Sprintf("fresh-%d", in.nfresh)
 	}
 	in.now = in.now.Add(o.dt)
+	if !in.avail {
+		// the filter's private representation is not what the accessor knows:
+		// black-box oracle only (the answers, while the clock is monotone)
+		got := in.f.TestAndSet(in.now, []byte(val))
+		want, strong := in.m.step(val, in.now)
+		stateUnavailable++
+		if strong && got != want {
+			return fail("answer", fmt.Sprintf("answer/got=%v", got), "%v returned %v, reference model says %v (model entries=%d)", o, got, want, len(in.m.entries))
+		}
+		if !strong {
+			// the model cannot be resynchronised from the state: the rest of
+			// this history is judged on panics only
+			in.m.mono = false
+		}
+		return nil
+	}
 	var pre []replayfilter.VerifEntry
 	if !light {
-		pre, _ = replayfilter.VerifDump(in.f)
+		pre, _, _ = replayfilter.VerifDump(in.f)
 	}
 	got := in.f.TestAndSet(in.now, []byte(val))
 	want, strong := in.m.step(val, in.now)
 
-	ml, fl := replayfilter.VerifLen(in.f)
+	ml, fl, _ := replayfilter.VerifLen(in.f)
 	if ml != fl {
 		return fail("bijection", "bijection", "after %v: map has %d entries, fifo %d", o, ml, fl)
 	}
@@ -182,7 +204,7 @@ func (in *inst) apply(o opT, light bool) *mc.Failure {
 	if light {
 		return nil
 	}
-	post, bij := replayfilter.VerifDump(in.f)
+	post, bij, _ := replayfilter.VerifDump(in.f)
 	if !bij {
 		return fail("bijection", "bijection", "after %v: map and fifo are not in bijection", o)
 	}
@@ -249,7 +271,16 @@ func (in *inst) apply(o opT, light bool) *mc.Failure {
 }
 
 func (in *inst) canon() string {
-	ents, _ := replayfilter.VerifDump(in.f)
+	if !in.avail {
+		// canonical form from the reference model (the real state is not readable)
+		var sb strings.Builder
+		fmt.Fprintf(&sb, "model mono=%v n=%d|", in.m.mono, in.nfresh)
+		for _, e := range in.m.entries {
+			fmt.Fprintf(&sb, "%s@%d,", e.val, int64(in.now.Sub(e.at)))
+		}
+		return sb.String()
+	}
+	ents, _, _ := replayfilter.VerifDump(in.f)
 	var sb strings.Builder
 	fmt.Fprintf(&sb, "mono=%v n=%d|", in.m.mono, in.nfresh)
 	for _, e := range ents {
